@@ -259,7 +259,7 @@ func (g *legacyGen) lit(kind byte) *lx {
 	switch kind {
 	case 't':
 		if r.Chance(60) {
-			return &lx{kind: "str", text: Pick(r, []string{"hello world foo", "abc", "", `say "hi"`, `C:\new\table`, `a\b`, "é😀", "x y z", "one,two,three", "it's", `\\w+`, `\w+`, `a\tb`})}
+			return &lx{kind: "str", text: Pick(r, []string{"hello world foo", "abc", "", "one two three four five six seven eight nine ten eleven twelve thirteen", "a,b,c,d,e,f,g,h,i,j,k,l,m,n", `say "hi"`, `C:\new\table`, `a\b`, "é😀", "x y z", "one,two,three", "it's", `\\w+`, `\w+`, `a\tb`})}
 		}
 		return &lx{kind: "ref", text: Pick(r, []string{"contact.name", "step.value", "contact.first_name", "flow.x.category"})}
 	case 'd':
@@ -269,7 +269,7 @@ func (g *legacyGen) lit(kind byte) *lx {
 		return &lx{kind: "bool", text: Pick(r, []string{"true", "false"})}
 	default:
 		if r.Chance(60) {
-			return &lx{kind: "dec", text: Pick(r, []string{"0", "1", "2", "3", "5", "10", "1.5", "2.50", "100"})}
+			return &lx{kind: "dec", text: Pick(r, []string{"0", "1", "2", "3", "5", "10", "1.5", "2.50", "100", "010", "0012", "007", "08"})}
 		}
 		return &lx{kind: "ref", text: Pick(r, []string{"contact.age", "contact.score", "contact.n", "flow.x", "extra.k", "step.value"})}
 	}
@@ -347,7 +347,7 @@ func (g *legacyGen) core(depth int) *lx {
 		case 0:
 			return &lx{kind: "bool", text: Pick(r, []string{"true", "false"})}
 		case 1:
-			return &lx{kind: "dec", text: Pick(r, []string{"0", "1", "2", "3", "10", "1.5", "2.50"})}
+			return &lx{kind: "dec", text: Pick(r, []string{"0", "1", "2", "3", "10", "1.5", "2.50", "010", "0012", "02"})}
 		default:
 			return &lx{kind: "ref", text: Pick(r, []string{"contact.age", "contact.score", "flow.x", "extra.k", "contact.name", "step.value"})}
 		}
@@ -522,6 +522,46 @@ func runC17(c *Ctx) {
 			desc["error"] = perr.Error()
 			c.Fail("monitor", "M-parses", "migrated-unparseable:"+e.shape(), "an expression in the migrated template does not parse", desc)
 			continue
+		}
+		// a literal parameter and the same number computed denote the same: where the migration pre-computes something from a
+		// literal (positions are decremented, counts negated) the result must agree with what it writes for a non-literal
+		var calls []*lx
+		var collect func(x *lx)
+		collect = func(x *lx) {
+			if x.kind == "call" {
+				calls = append(calls, x)
+			}
+			for _, k := range x.kids {
+				collect(k)
+			}
+		}
+		collect(e)
+		for _, ce := range calls {
+			e2 := &lx{kind: ce.kind, text: ce.text}
+			changed := false
+			for _, k := range ce.kids {
+				if k.kind == "dec" {
+					e2.kids = append(e2.kids, &lx{kind: "paren", kids: []*lx{k}})
+					changed = true
+				} else {
+					e2.kids = append(e2.kids, k)
+				}
+			}
+			if !changed {
+				continue
+			}
+			m1, err1 := expressions.MigrateTemplate("@("+ce.legacy()+")", nil)
+			m2, err2 := expressions.MigrateTemplate("@("+e2.legacy()+")", nil)
+			if err1 != nil || err2 != nil {
+				continue
+			}
+			v1, ok1 := c17Eval(env, ctx, m1)
+			v2, ok2 := c17Eval(env, ctx, m2)
+			c.Count("check:M-literal-param")
+			if ok1 && ok2 && v1 != v2 {
+				c.Fail("monitor", "M-literal-param", "literal-parameter-differs:"+ce.text, "a literal parameter is migrated to something else than the same number in parentheses",
+					map[string]any{"legacy": "@(" + ce.legacy() + ")", "migrated": m1, "legacy_parenthesised": "@(" + e2.legacy() + ")", "migrated_parenthesised": m2, "values": fmt.Sprintf("%q vs %q", v1, v2)})
+			}
 		}
 		bad, _, _, in, why := fails(e)
 		c.Count("check:M-meaning")
